@@ -11,7 +11,7 @@ import (
 
 func init() {
 	rule("C03.1", "E3", "OnCReact hands no fragment to a backend connection on a path that can still answer the client locally (the caller recycles a locally answered Msg)", 10, ruleC03_1)
-	rule("C03.2", "E3", "conn.sread tests Frag.Done before anything that touches the fragment's request (redirect, counting, merge)", 6, ruleC03_2)
+	rule("C03.2", "E3", "conn.sread tests Frag.Done before anything that touches the fragment's request (redirect, counting, merge)", 5, ruleC03_2)
 	rule("C03.3", "E2+E3", "nothing is written to a closed client; conn.opened has two writers; conn objects are never pooled", 5, ruleC03_3)
 	rule("C03.4", "E2+E3", "positional correlation is one-in/one-out: a fragment is dequeued only for a complete reply frame, and moved to the in-flight queue exactly when its bytes are sent", 5, ruleC03_4)
 	rule("C03.5", "E2", "back-pointers: Frag.Owner is the handler's own client, Frag.Peer the request being built, per-connection queues are never shared", 8, ruleC03_5)
@@ -137,12 +137,20 @@ func ruleC03_2(c *Ctx) {
 					}
 				}
 			case *ssa.Call:
+				// any call that hands the fragment or its request to code with effects (the merge functions, a helper
+				// wrapping them, the error completion): accessors and logging only read
 				callee := x.Call.StaticCallee()
-				if callee != nil && recvNamed(callee) != nil && recvNamed(callee).Obj().Name() == "SRespCodec" && callee != sdec && callee.Name() != "InitializingDecode" && callee.Name() != "sizeTooLarge" {
-					for _, a := range x.Call.Args {
-						if strip(a) == f {
-							report("merge call "+callee.Name(), in)
-						}
+				if callee == nil || !p.ownFunc(callee) || callee.Blocks == nil || skipPkg(callee) || callee == sdec || p.isPure(callee, 0) {
+					continue
+				}
+				for _, a := range x.Call.Args {
+					isReq := false
+					if base, ok := fieldLoad(a, peer); ok && strip(base) == f {
+						isReq = true
+					}
+					if strip(a) == f || isReq {
+						report("call of "+callee.Name()+" with the fragment", in)
+						break
 					}
 				}
 			}
